@@ -163,3 +163,26 @@ def r_C33c_C34g(root):
     return inst, out
 def block_parent(stmt):
     return getattr(stmt, "_parent", None)
+
+def r_C29e(root):
+    """C29.e  dot_repr is relied on as a sanitiser by the exporters (the taint rule C29.a treats its result as clean):
+       in its string branch every value interpolated into the result is the result of dot_escape (whole or sliced) —
+       never the raw argument."""
+    out = []; inst = 0
+    fn = find(load(root, E), "dot_repr"); fi = sem.info(fn); p0 = fn.args.args[0].arg
+    rets = [r for r in own_nodes(fn) if isinstance(r, ast.Return) and r.value is not None]
+    if not rets: raise AnalysisError("dot_repr: no return found")
+    for r in rets:
+        at = [(a.replace(" ", ""), pol) for a, pol in fi.atoms_at(r)]
+        if not any(a == "isinstance(%s,str)" % p0 and pol for a, pol in at): continue
+        inst += 1; bad = None
+        for x in ast.walk(r.value):
+            if isinstance(x, ast.Name) and isinstance(x.ctx, ast.Load):
+                v = fi.expand(x, at=r)
+                core = v
+                while isinstance(core, ast.Subscript): core = core.value
+                if not (isinstance(core, ast.Call) and callee_name(core) in ("dot_escape", "html_escape", "len")): bad = (x, v)
+        ob("C29", "C29.e", E, "dot_repr", "string branch returns only escaped text: %s" % " ".join(ast.unparse(r.value).split())[:70], bad is None)
+        if bad: out.append(Finding("C29", "C29.e", E, "dot_repr", " ".join(ast.unparse(r).split())[:90], "the string branch of dot_repr puts %s into its result, which is not the output of dot_escape: quotes, braces and bars of attribute values reach the DOT label unescaped" % ast.unparse(bad[1])[:50], witness="a STRING attribute longer than 20 characters with a double quote among the first 20"))
+    if inst < 1: raise AnalysisError("dot_repr: string branch not found")
+    return inst, out
